@@ -78,8 +78,9 @@ def gen_case(rng):
     files = []
     for j in range(rng.choice([0, 0, 1, 1, 2, 3])):
         kind = rng.choice(['text', 'text', 'binary'])
-        bom_latin1 = kind == 'text' and rng.random() < 0.06
-        how = rng.choice(['explicit', 'explicit', 'dir', 'glob', 'sibling'])
+        bom_latin1 = kind == 'text' and rng.random() < 0.1
+        how = rng.choice(['explicit', 'explicit', 'dir', 'glob', 'sibling', 'glob2', 'tmp'] if rng.random() < 0.3 else
+                         ['explicit', 'explicit', 'dir', 'glob', 'sibling'])
         ext = {'text': rng.choice(['.txt', '.csv', '.log', '.json', '']), 'binary': rng.choice(['.bin', '.dat', '.png'])}[kind]
         name = 'out%d%s' % (j, ext)
         if rng.random() < 0.2:
@@ -102,6 +103,10 @@ def gen_case(rng):
         if bom_latin1 and name.endswith(('.txt', '.csv', '.log')):
             # a text file in a legacy encoding behind a UTF-8 byte-order mark (bytes given in hex)
             fl['raw_hex'] = (b'\xef\xbb\xbf' + 'caf\u00e9 au lait\nprix: 12 \u00a3\nna\u00efve\n'.encode('latin-1')).hex()
+            if rng.random() < 0.5:
+                # or text in an encoding the detector names (UTF-16 with its byte-order mark, Shift-JIS)
+                fl['raw_hex'] = rng.choice(['caf\u00e9 \u65e5\u672c\nline 2\nline 3\n'.encode('utf-16'),
+                                            ('\u65e5\u672c\u8a9e\u306e\u30c6\u30ad\u30b9\u30c8\u3067\u3059\u3002\n' * 6).encode('cp932')]).hex()
         if any(target_of(f) == target_of(fl) for f in files):
             fl['name'] = 'n%d_%s' % (j, name)       # (two outputs of one command are two files)
         files.append(fl)
@@ -118,6 +123,9 @@ def gen_case(rng):
                               content=f0['content'] + ('y\n' if f0['kind'] == 'text' else '01')))
             if files[-1]['name'] == f0['name']:
                 files.pop()
+    if len(files) >= 2 and rng.random() < 0.3:
+        # two wildcard patterns on one command line, each matching an output
+        files[0]['how'], files[1]['how'] = 'glob', 'glob2'
     seen = set()
     files = [f for f in files if not (target_of(f) in seen or seen.add(target_of(f)))]     # one file per path
     flags = []
@@ -141,7 +149,7 @@ def gen_case(rng):
             'preexisting': rng.random() < 0.25, 'preserve_times': rng.random() < 0.3,
             'old_bystanders': rng.random() < 0.3,
             # another generated test (test_cmd.py with its reference directory ref/cmd) is already there
-            'prior_test': rng.random() < 0.25, 'echo_tmpdir': rng.random() < 0.12}
+            'prior_test': rng.random() < 0.25, 'echo_tmpdir': rng.random() < 0.12, 'empty_glob': rng.random() < 0.1}
 
 
 def echoes_tmpdir(case):
@@ -167,6 +175,10 @@ def target_of(fl, base='w'):
         return 'outdir2/' + fl['name']
     if fl['how'] == 'glob':
         return 'g_' + fl['name']
+    if fl['how'] == 'glob2':
+        return 'h_' + fl['name']            # (a second wildcard pattern on the same command line)
+    if fl['how'] == 'tmp':
+        return '$TMPDIR/t_' + fl['name']    # (written under the directory the generator hands the command as $TMPDIR)
     return fl['name']
 
 
@@ -213,6 +225,11 @@ def build_dir(case, d):
         elif fl['how'] == 'glob':
             if 'g_*' not in refs:
                 refs.append('g_*')
+        elif fl['how'] == 'glob2':
+            if 'h_*' not in refs:
+                refs.append('h_*')
+        elif fl['how'] == 'tmp':
+            pass                      # (found by the generator itself: everything under its $TMPDIR is an output)
         elif fl['how'] == 'sibling':
             # an output outside the working directory, in a directory whose name extends the working directory's
             os.makedirs(os.path.join(d, os.path.dirname(target)), exist_ok=True)
@@ -221,11 +238,13 @@ def build_dir(case, d):
             refs.append(target)
         fl['target'] = target
         cp = 'cp -p' if case.get('preserve_times') else 'cp'
-        parts.append('if test -f %s; then %s %s %s; fi' % (src, cp, src, target))
-        if case.get('preexisting'):
+        parts.append('if test -f %s; then %s %s %s; fi' % (src, cp, src, '"%s"' % target if fl['how'] == 'tmp' else target))
+        if case.get('preexisting') and fl['how'] != 'tmp':
             # the command was tried by hand before: its outputs are already there when the generator looks
             import shutil as _sh
             _sh.copy2(os.path.join(d, src), os.path.join(d, target))
+    if case.get('empty_glob'):
+        refs.append('nomatch_*.log')          # a pattern that matches nothing this time (warned about, otherwise ignored)
     parts.append('exit $(cat in_status)')
     if case.get('old_bystanders'):
         # files the command never touches, inside the directories given to the generator, whose modification time is
